@@ -21,6 +21,11 @@ type step struct {
 	lvl int
 }
 
+func init() {
+	rt.Register("c09", Run)
+	rt.Register("c09conc", RunConc)
+}
+
 // Run: B1 systematic enumeration + seeded random histories on the real service.
 func Run(r *rt.Run) error {
 	InstallHooks(nil)
